@@ -77,12 +77,11 @@ def rule_reflect(ctx):
                     if not (is_ctor or is_pre):
                         bad.append(nm)
             else:
+                from .astutil import modifier_effect
                 dp = prog.cls("datapath.DataPath")
                 for nm in sorted(allowed):
                     m = dp.lookup_method(nm)
-                    ok = m is not None and m.kind == "method" and len(m.params) == 1 and any(
-                        isinstance(n, ast.Call) and isinstance(n.func, ast.Attribute) and n.func.attr in ("_copy_with_datum_type", "_copy_with_multi_type")
-                        for n in ast.walk(m.node))
+                    ok = m is not None and m.kind == "method" and len(m.params) == 1 and modifier_effect(prog, m)[0] == "ok"
                     if not ok:
                         bad.append(nm)
             if bad:
@@ -110,23 +109,25 @@ def rule_reflect(ctx):
                 inst["verdict"] = "driven by FilterDatumType values, each a zero-argument method of Data"
                 r.ok()
         else:
-            # internal helper taking attribute names from sibling call sites: all literal
-            fn = f
-            pname = txt
-            lits = []
-            okall = True
-            for g in prog.all_functions():
-                for n in ast.walk(g.node):
-                    if isinstance(n, ast.Call) and isinstance(n.func, ast.Attribute) and n.func.attr == fn.name and n.args:
-                        if isinstance(n.args[0], ast.Constant) and isinstance(n.args[0].value, str):
-                            lits.append(n.args[0].value)
-                        elif isinstance(n.args[0], ast.Name) and g.name == fn.name:
-                            continue  # recursive forwarding of the same parameter
-                        else:
-                            okall = False
-            inst["allowed_names"] = sorted(set(lits))
-            if okall and lits:
-                inst["verdict"] = "internal: every caller passes a string literal"
+            # internal helper: the attribute name is built from constants and parameters for which
+            # every call site passes a string literal
+            from .shape2 import _literal_args_of_param
+            name_expr = call.args[1]
+            params = sorted({n.id for n in ast.walk(name_expr) if isinstance(n, ast.Name) and n.id in f.param_names()})
+            others = [n.id for n in ast.walk(name_expr) if isinstance(n, ast.Name) and n.id not in f.param_names()]
+            lits = {p: _literal_args_of_param(prog, f, p) for p in params}
+            names = None
+            if params and not others and all(v for v in lits.values()):
+                import itertools
+                names = set()
+                try:
+                    for combo in itertools.product(*[lits[p] for p in params]):
+                        names.add(ConstEval(prog, f.module, dict(zip(params, combo))).ev(name_expr))
+                except Undecidable:
+                    names = None
+            inst["allowed_names"] = sorted(names) if names else None
+            if names:
+                inst["verdict"] = "internal: every caller passes string literals for the parameters the name is built from"
                 r.ok()
             else:
                 inst["verdict"] = "internal helper called with a non-literal attribute name"
